@@ -81,7 +81,7 @@ def _atoms(el, na, iso, label, atype, stereo, geom, fc, fs, aint):
     atoms = []
     if na >= 1:
         atoms.append(Atom(ELEMENTS[el], isotope=iso, label=label, atype=atype, stereo=stereo, geom=geom, formal_charge=fc,
-                          formal_spin=fs, attrib={"n": {"deep": aint, "t": ("x", None)}}))
+                          formal_spin=fs, attrib=({} if aint == 0 else {"n": {"deep": aint, "t": ("x", None)}})))      # aint == 0: no attributes at all
     if na >= 2:
         atoms.append(Atom("N", label="", isotope=15, formal_charge=-1, attrib={}))
     if na >= 3:
